@@ -230,7 +230,7 @@ fn all_pub_sub() -> Vec<(u32, OpKind)> {
 }
 
 /// enumerate all sequences of length `depth` over `alphabet`, partitioned over workers
-fn sequences(alphabet: Vec<Ev>, depth: usize, worker: usize, workers: usize) -> impl Iterator<Item = Vec<Ev>> {
+fn sequences<T: Clone + 'static>(alphabet: Vec<T>, depth: usize, worker: usize, workers: usize) -> impl Iterator<Item = Vec<T>> {
     let n = alphabet.len();
     let total = n.pow(depth as u32);
     (0..total)
@@ -325,7 +325,25 @@ impl Property for C05 {
             1 => Just(Ev::ReenterRun),
         ]
         .boxed();
-        crowd(no_inbound(scenario(Just(None).boxed(), ev, 1..tier.pick(60, 200))))
+        // the same with application messages arriving in between, for subscriptions whose stream
+        // is read, unread or dropped: other traffic must not change how an operation completes
+        let ev2 = prop_oneof![
+            5 => start(all_pub_sub()),
+            2 => Just(Ev::PollCtx),
+            2 => sel().prop_map(|sel| Ev::PollOp { sel }),
+            5 => ack(deco()),
+            2 => Just(Ev::Settle),
+            2 => sel().prop_map(|sel| Ev::MakeStream { sel }),
+            2 => sel().prop_map(|sel| Ev::DropStream { sel }),
+            1 => sel().prop_map(|sel| Ev::PollStream { sel }),
+            5 => in_publish((0u8..3).boxed(), Just(0u16).boxed(), prop_oneof![4 => sel().prop_map(Target::Sub), 1 => (sel(), sel()).prop_map(|(a, b)| Target::Two(a, b)), 1 => Just(Target::Unknown), 1 => Just(Target::None)].boxed()),
+        ]
+        .boxed();
+        prop_oneof![
+            3 => crowd(no_inbound(scenario(Just(None).boxed(), ev, 1..tier.pick(60, 200)))),
+            1 => scenario(Just(None).boxed(), ev2, 1..tier.pick(40, 120)),
+        ]
+        .boxed()
     }
 
     fn cases(tier: Tier) -> u32 {
@@ -354,10 +372,46 @@ impl Property for C05 {
             Ev::PollCtx,
             Ev::DropOp { sel: 0 },
         ];
+        // subscribes outstanding while messages arrive for subscriptions whose stream is gone
+        let with_streams = vec![
+            Ev::Start { h: 0, kind: OpKind::Pub1, settle: false, solo: false },
+            Ev::Start { h: 0, kind: OpKind::Sub(0), settle: false, solo: false },
+            Ev::In(Inbound::Ack { sel: 65535, deco: d }),
+            Ev::In(Inbound::Ack { sel: 0, deco: d }),
+            Ev::MakeStream { sel: 65535 },
+            Ev::DropStream { sel: 0 },
+            Ev::In(Inbound::Publish { qos: 0, dup: false, retain: false, pid: 0, target: Target::Sub(65535), payload_len: 1, props: 0 }),
+            Ev::Settle,
+        ];
         Box::new(
             sequences(alphabet, tier.pick(5, 7), worker, workers)
                 .map(|events| Scenario { receive_max: None, max_packet_size: None, id_offset: 0, prologue: 0, events })
-                .chain(sequences(with_drop, tier.pick(6, 8), worker, workers).map(|events| Scenario { receive_max: None, max_packet_size: None, id_offset: 0, prologue: 0, events })),
+                .chain(sequences(with_drop, tier.pick(6, 8), worker, workers).map(|events| Scenario { receive_max: None, max_packet_size: None, id_offset: 0, prologue: 0, events }))
+                .chain(sequences(with_streams, tier.pick(6, 7), worker, workers).map(|mut events| {
+                    events.push(Ev::Settle);
+                    Scenario { receive_max: None, max_packet_size: None, id_offset: 0, prologue: 0, events }
+                }))
+                .chain(sequences((0u8..7).collect(), tier.pick(6, 7), worker, workers).map(move |word| {
+                    let mut events = vec![];
+                    for c in word {
+                        match c {
+                            0 => events.push(Ev::Start { h: 0, kind: OpKind::Pub1, settle: false, solo: false }),
+                            1 => events.push(Ev::Start { h: 0, kind: OpKind::Sub(0), settle: false, solo: false }),
+                            // the newest subscribe acknowledged, its stream taken and dropped
+                            2 => events.extend([Ev::Settle, Ev::In(Inbound::Ack { sel: 65535, deco: d }), Ev::Settle, Ev::MakeStream { sel: 65535 }, Ev::DropStream { sel: 65535 }]),
+                            3 => events.push(Ev::In(Inbound::Ack { sel: 0, deco: d })),
+                            4 => events.push(Ev::In(Inbound::Publish { qos: 0, dup: false, retain: false, pid: 0, target: Target::Sub(65535), payload_len: 1, props: 0 })),
+                            5 => events.push(Ev::In(Inbound::Publish { qos: 1, dup: false, retain: false, pid: 0, target: Target::Sub(0), payload_len: 1, props: 0 })),
+                            _ => events.push(Ev::Settle),
+                        }
+                    }
+                    // everything still outstanding is acknowledged in the end
+                    for _ in 0..6 {
+                        events.extend([Ev::Settle, Ev::In(Inbound::Ack { sel: 0, deco: d })]);
+                    }
+                    events.push(Ev::Settle);
+                    Scenario { receive_max: None, max_packet_size: None, id_offset: 0, prologue: 0, events }
+                })),
         )
     }
 
@@ -2468,6 +2522,20 @@ impl Property for C16 {
                 }
             }
             v.push(C16Case { scn: Scenario { receive_max: None, max_packet_size: None, id_offset: 0, prologue: 0, events }, spurious: vec![(1000, 0), (40000, 2)] });
+        }
+        // exactly 31 / 32 / 33 / 64 / 128 acknowledgements in ONE read (or in as many reads that are
+        // all ready at once), then one more in a read of its own
+        for n in [31usize, 32, 33, 64, 128] {
+            for plan in [gen::ChunkPlan::Whole, gen::ChunkPlan::PerPacket] {
+                let mut events = vec![];
+                for _ in 0..=n {
+                    events.push(Ev::Start { h: 0, kind: OpKind::Pub1, settle: false, solo: false });
+                }
+                events.push(Ev::Settle);
+                events.push(Ev::Burst { items: (0..n).map(|_| Inbound::Ack { sel: 0, deco: Deco::default() }).collect(), plan: plan.clone(), settle_between: false });
+                events.push(Ev::In(Inbound::Ack { sel: 0, deco: Deco::default() }));
+                v.push(C16Case { scn: Scenario { receive_max: None, max_packet_size: None, id_offset: 0, prologue: 0, events }, spurious: vec![(30000, 0)] });
+            }
         }
         // hundreds to a thousand requests outstanding, one QoS 2 publish abandoned among them, and a
         // poll of run() that nothing asked for between the cancellation and the PUBREC
